@@ -4,6 +4,7 @@
 -/
 import SoundeventModel.Crowsetta
 import Proofs.Lemmas.Crowsetta
+import Proofs.Lemmas.Bounds
 namespace SE.Proofs.C10
 open SE SE.Crowsetta SE.Proofs.Lemmas.Crowsetta
 
@@ -1289,5 +1290,268 @@ example : Pinned.labelFromTags { selectByKey := some "k", kw := { valueOnly := s
     .error .type := by decide
 example : Pinned.labelToTags { term := some ⟨"L", "n:L", "d"⟩, tagMapping := some [("lab", .single ⟨termFromKey "k", "v"⟩)] } "lab" =
     .ok [⟨⟨"L", "n:L", "d"⟩, "lab"⟩] := by decide
+
+/-! ## review additions: the decisions of the exporters by type tag, "spans" as min / max,
+    the recording loaded from the notated path, the round trip through `select_by_key` -/
+
+/-- `convert_geometry_to_interval` is `spanOf` of the geometry's type tag (the table the symbolic
+    ties re-establish for the nine types × `cast_to_segment`), followed by pydantic's validation of
+    the cast interval -/
+theorem C10_export_span_of (g : Geom) (cast : Bool) :
+    (∀ s e, g = .timeInterval s e → ∀ b, geomToInterval g cast = .ok (s, e) ∧ spanOf g.tag cast s e b = some (s, e)) ∧
+    ((∀ s e, g ≠ .timeInterval s e) → ∀ b, g.bounds = some b → ∀ s e,
+      (spanOf g.tag cast s e b = none → geomToInterval g cast = .error .invalid) ∧
+      (∀ p, spanOf g.tag cast s e b = some p → p = (b.st, b.en) ∧
+        geomToInterval g cast = (mkInterval b.st b.en).map (fun _ => p))) := by
+  constructor
+  · rintro s e rfl b
+    simp [geomToInterval, spanOf, Geom.tag]
+  · intro hnt b hb s e
+    cases g with
+    | timeInterval s0 e0 => exact absurd rfl (hnt s0 e0)
+    | _ =>
+      cases cast <;> simp [geomToInterval, spanOf, Geom.tag, hb] <;>
+        (cases mkInterval b.st b.en <;> simp [Except.map])
+
+/-- the fields of an exported segment are `segFields` of the chosen time span: the seconds are the
+    span itself and the sample indices are Python's `int()` of `time · samplerate` -/
+theorem C10_export_segment_fields (o : TagsOpts) (cast : Bool) (sr : Rat) (a : Ann) (seg : Segment) :
+    exportSegment o cast sr a = .ok seg ↔
+      ∃ g s e l, a.geom = some g ∧ geomToInterval g cast = .ok (s, e) ∧ labelFromTags o a.tags = .ok l ∧
+        seg = ⟨l, some (segFields sr s e).1, some (segFields sr s e).2.1,
+               some (pyInt (segFields sr s e).2.2.1), some (pyInt (segFields sr s e).2.2.2)⟩ := by
+  unfold exportSegment
+  cases hg : a.geom with
+  | none => simp
+  | some g =>
+    simp only [Option.some.injEq, exists_and_left, exists_eq_left']
+    cases hgi : geomToInterval g cast with
+    | error e => simp [bind, Except.bind]
+    | ok p =>
+      obtain ⟨s, e⟩ := p
+      cases hl : labelFromTags o a.tags with
+      | error e => simp [bind, Except.bind]
+      | ok l =>
+        simp only [bind, Except.bind, pure, Except.pure, Except.ok.injEq, segFields, timeToSample,
+          Prod.mk.injEq]
+        constructor
+        · rintro rfl; exact ⟨s, e, ⟨rfl, rfl⟩, l, rfl, rfl⟩
+        · rintro ⟨s', e', ⟨rfl, rfl⟩, l', rfl, rfl⟩; rfl
+
+/-- `convert_geometry_to_bbox` refuses exactly when `boxRefused` of the type tag says so (the table
+    the symbolic ties re-establish for the nine types × `cast_to_bbox` × `raise_on_time_geometries`);
+    otherwise the export is the label cascade followed by `boxOf` -/
+theorem C10_export_bbox_decision (o : TagsOpts) (cast raiseTime : Bool) (sr : Rat) (a : Ann) (g : Geom) (b : Bounds)
+    (hg : a.geom = some g) (hb : g.bounds = some b) :
+    exportBBox o cast raiseTime sr a =
+      if boxRefused g.tag cast raiseTime = true then .error .invalid
+      else (labelFromTags o a.tags).bind (boxOf g.tag cast raiseTime b sr) := by
+  unfold exportBBox
+  simp only [hg]
+  cases g <;> cases cast <;> cases raiseTime <;>
+    simp [geomToBounds, boxRefused, boxOf, isBoxGeom, isTimeGeom, Geom.tag, hb, bind, Except.bind]
+
+/-- `boxRefused` spelled out: refused iff (not a box and casting is off) or (a time geometry and
+    `raise_on_time_geometries`) -/
+theorem C10_export_bbox_refused_iff (g : Geom) (cast raiseTime : Bool) :
+    boxRefused g.tag cast raiseTime = true ↔
+      (isBoxGeom g = false ∧ cast = false) ∨ (isTimeGeom g = true ∧ raiseTime = true) := by
+  cases g <;> cases cast <;> cases raiseTime <;> simp [boxRefused, isBoxGeom, isTimeGeom, Geom.tag]
+
+/-- "spans the geometry's time bounds", as minimum and maximum: every point of the geometry lies
+    between the exported onset and offset, and both are attained by points of the geometry -/
+theorem C10_export_spans_segment (o : TagsOpts) (cast : Bool) (sr : Rat) (a : Ann) (s : Segment) (g : Geom)
+    (hg : a.geom = some g) (hord : IntervalOrdered g) (h : exportSegment o cast sr a = .ok s) :
+    ∃ on off, s.onsetS = some on ∧ s.offsetS = some off ∧
+      (∀ p ∈ g.boundPts, on ≤ p.1 ∧ p.1 ≤ off) ∧ (∃ p ∈ g.boundPts, p.1 = on) ∧ (∃ p ∈ g.boundPts, p.1 = off) := by
+  cases hb : g.bounds with
+  | none =>
+    -- a geometry without points exports nothing
+    exfalso
+    have hpts : g.boundPts = [] := (SE.Proofs.Lemmas.Bounds.ptsBounds_eq_none _).mp hb
+    cases g with
+    | timeInterval s0 e0 => simp [Geom.boundPts] at hpts
+    | _ =>
+      simp only [exportSegment, hg, geomToInterval, hb] at h
+      cases cast <;> simp [bind, Except.bind] at h
+  | some b =>
+    obtain ⟨h1, h2, _⟩ := C10_export_bounds_segment o cast sr a s g b hg hb hord h
+    have hB := SE.Proofs.Lemmas.Bounds.ptsBounds_isBoundsOf g.boundPts b hb
+    exact ⟨b.st, b.en, h1, h2, fun p hp => ⟨(hB.contains p hp).1, (hB.contains p hp).2.1⟩, hB.st_attained, hB.en_attained⟩
+
+/-- "spans the geometry's time and frequency bounds": onset, offset and low frequency are the
+    minima / maximum over the geometry's points, the high frequency is the maximum capped at the
+    Nyquist frequency -/
+theorem C10_export_spans_bbox (o : TagsOpts) (cast raiseTime : Bool) (sr : Rat) (a : Ann) (bb : BBox)
+    (h : exportBBox o cast raiseTime sr a = .ok bb) :
+    ∃ g, a.geom = some g ∧
+      (∀ p ∈ g.boundPts, bb.onset ≤ p.1 ∧ p.1 ≤ bb.offset ∧ bb.lowFreq ≤ p.2 ∧ min p.2 (sr / 2) ≤ bb.highFreq) ∧
+      (∃ p ∈ g.boundPts, p.1 = bb.onset) ∧ (∃ p ∈ g.boundPts, p.1 = bb.offset) ∧
+      (∃ p ∈ g.boundPts, p.2 = bb.lowFreq) ∧ (∃ p ∈ g.boundPts, min p.2 (sr / 2) = bb.highFreq) := by
+  obtain ⟨g, b, hg, hb, h1, h2, h3, h4, _⟩ := C10_export_bounds_bbox o cast raiseTime sr a bb h
+  have hB := SE.Proofs.Lemmas.Bounds.ptsBounds_isBoundsOf g.boundPts b hb
+  refine ⟨g, hg, ?_, ?_, ?_, ?_, ?_⟩
+  · intro p hp
+    have := hB.contains p hp
+    rw [h1, h2, h3, h4]
+    refine ⟨this.1, this.2.1, this.2.2.1, ?_⟩
+    have := this.2.2.2
+    grind
+  · rw [h1]; exact hB.st_attained
+  · rw [h2]; exact hB.en_attained
+  · rw [h3]; exact hB.lo_attained
+  · obtain ⟨p, hp, e⟩ := hB.hi_attained
+    exact ⟨p, hp, by rw [h4, e]⟩
+
+/-- no recording given and no notated path: `ValueError` -/
+theorem C10_import_annotation_load_nopath (o : LabelOpts) (adjust : Bool) (load : String → Rec) (ca : CrowAnn)
+    (hp : ca.notatedPath = none) : importAnnotationLoad o adjust load ca = .error .invalid := by
+  simp [importAnnotationLoad, hp]
+
+/-- no recording given: the annotation is imported against the recording loaded from its notated
+    path; with the loader's contract (`Recording.from_file(p).path = p`) the path check cannot fail, so
+    the result is the one of `importAnnotation` for an annotation without notated path -/
+theorem C10_import_annotation_load (o : LabelOpts) (adjust : Bool) (load : String → Rec) (ca : CrowAnn) (p : String)
+    (hp : ca.notatedPath = some p) (hload : (load p).path = p) :
+    importAnnotationLoad o adjust load ca = importAnnotation o adjust (load p) ca ∧
+    importAnnotation o adjust (load p) ca = importAnnotation o adjust (load p) { ca with notatedPath := none } := by
+  simp [importAnnotationLoad, importAnnotation, hp, hload]
+
+/-- value-only labels through `select_by_key`: importing with a fixed term or key (no mappings) and
+    exporting with `select_by_key` equal to that key reproduces the label, whatever `value_only`
+    says (the selected tag is always rendered value-only) -/
+theorem C10_roundtrip_label_select (io : LabelOpts) (eo : TagsOpts) (hi : SingleTagImport io)
+    (htm : io.termMapping = none) (hkm : io.keyMapping = none)
+    (hsf : eo.seqLabelFn = none) (hfn : eo.kw.labelFn = none) (hmp : eo.kw.labelMapping = none)
+    (hsel : eo.selectByKey = some (match io.term with | some t => t.label | none => io.key.getD io.fallback))
+    (hm : io.emptyLabels = [eo.emptyLabel]) (label : String) :
+    ∃ tags, labelToTags io label = .ok tags ∧ labelFromTags eo tags = .ok label := by
+  obtain ⟨hnf, hntm⟩ := hi
+  by_cases hl : label = eo.emptyLabel
+  · subst hl
+    exact ⟨[], by simp [labelToTags, hm], by simp [labelFromTags, hsf]⟩
+  · cases ht : io.term with
+    | some t =>
+      rw [ht] at hsel
+      refine ⟨[⟨t, label⟩], ?_, ?_⟩
+      · simp [labelToTags, hm, hl, fnRung, hnf, hit, htm, hntm, ht]
+      · simp [labelFromTags, hsf, hsel, keyFromTerm, labelFromTag, hfn, hmp]
+    | none =>
+      rw [ht] at hsel
+      refine ⟨[⟨termFromKey (io.key.getD io.fallback), label⟩], ?_, ?_⟩
+      · simp [labelToTags, hm, hl, fnRung, hnf, hit, htm, hntm, ht, chooseKey, hkm]
+      · simp [labelFromTags, hsf, hsel, keyFromTerm, termFromKey, labelFromTag, hfn, hmp]
+
+-- non-vacuity
+example : spanOf "Polygon" true 0 0 ⟨1, 2, 3, 4⟩ = some (1, 3) ∧ spanOf "Polygon" false 0 0 ⟨1, 2, 3, 4⟩ = none ∧
+    spanOf "TimeInterval" false 5 6 ⟨1, 2, 3, 4⟩ = some (5, 6) := by decide +kernel
+example : boxRefused "TimeStamp" true true = true ∧ boxRefused "TimeStamp" true false = false ∧
+    boxRefused "Polygon" false false = true ∧ boxRefused "BoundingBox" false true = false := by decide
+example : boxOf "LineString" true true ⟨1, 1, 3, 9⟩ 10 "x" = .ok ⟨1, 3, 1, 5, "x"⟩ := by decide +kernel
+example : exportSegment {} true 10 ⟨some (.lineString [(2, 5), (1/2, 7), (3/2, 1)]), []⟩ =
+    .ok ⟨"__empty__", some (1/2), some 2, some 5, some 20⟩ := by decide +kernel
+example : importAnnotationLoad {} true (fun p => ⟨8, 2, p⟩) ⟨some "x.wav", [⟨2, 4, 3, 4, "b"⟩], []⟩ =
+    .ok ⟨[⟨some (.boundingBox 1 6 2 8), [⟨termFromKey "crowsetta", "b"⟩]⟩], []⟩ := by decide +kernel
+example : importAnnotationLoad {} true (fun p => ⟨8, 2, p⟩) ⟨none, [⟨2, 4, 3, 4, "b"⟩], []⟩ = .error .invalid := by
+  decide +kernel
+example : ∃ tags, labelToTags { key := some "species" } "Myotis" = .ok tags ∧
+    labelFromTags { selectByKey := some "species", kw := { valueOnly := some false } } tags = .ok "Myotis" :=
+  ⟨[⟨termFromKey "species", "Myotis"⟩], by decide, by decide⟩
+
+/-- the label part of the round trip, as a property of a pair of option records -/
+def LabelRoundTrip (io : LabelOpts) (eo : TagsOpts) : Prop :=
+  ∀ label, ∃ tags, labelToTags io label = .ok tags ∧ labelFromTags eo tags = .ok label
+
+/-- both documented ways to value-only labels give it: `value_only=True` (`C10_roundtrip_label`) and
+    `select_by_key` of the importer's key (`C10_roundtrip_label_select`) -/
+theorem C10_label_roundtrip_cases (io : LabelOpts) (eo : TagsOpts) (hi : SingleTagImport io)
+    (hm : io.emptyLabels = [eo.emptyLabel])
+    (h : ValueOnlyExport eo ∨
+      (io.termMapping = none ∧ io.keyMapping = none ∧ eo.seqLabelFn = none ∧ eo.kw.labelFn = none ∧
+        eo.kw.labelMapping = none ∧
+        eo.selectByKey = some (match io.term with | some t => t.label | none => io.key.getD io.fallback))) :
+    LabelRoundTrip io eo := by
+  intro label
+  rcases h with he | ⟨h1, h2, h3, h4, h5, h6⟩
+  · exact C10_roundtrip_label io eo hi he hm label
+  · exact C10_roundtrip_label_select io eo hi h1 h2 h3 h4 h5 h6 hm label
+
+/-- **round trip from the label round trip alone** (`te = 1`): whatever options make labels survive,
+    segments (each end in seconds or samples), sequences, sequence annotations, boxes and box
+    annotations are reproduced — times, frequencies, labels, order, nothing dropped -/
+theorem C10_roundtrip_of_label_roundtrip (io : LabelOpts) (eo : TagsOpts) (hl : LabelRoundTrip io eo)
+    (adjust cast ignore raiseTime : Bool) (r : Rec) (hte : r.te = 1) :
+    (∀ s, SegValid r.samplerate s → roundtripSegment io eo adjust cast r s = .ok (rtImage r.samplerate s)) ∧
+    (∀ segs, (∀ s ∈ segs, SegValid r.samplerate s) →
+      roundtripSequence io eo adjust cast ignore r segs = .ok (segs.map (rtImage r.samplerate)) ∧
+      roundtripAnnotation io eo .seq adjust ignore cast raiseTime r ⟨some r.path, [], [segs]⟩ =
+        .ok ⟨some r.path, [], [segs.map (rtImage r.samplerate)]⟩) ∧
+    (∀ b, BoxInDomain r b → roundtripBBox io eo adjust cast raiseTime r b = .ok b) ∧
+    (∀ boxes, (∀ b ∈ boxes, BoxInDomain r b) →
+      roundtripAnnotation io eo .bbox adjust ignore cast raiseTime r ⟨some r.path, boxes, []⟩ =
+        .ok ⟨some r.path, boxes, []⟩) := by
+  have segSteps : ∀ s, SegValid r.samplerate s → ∃ ann, importSegment io adjust r s = .ok ann ∧
+      exportSegment eo cast r.samplerate ann = .ok (rtImage r.samplerate s) := by
+    intro s hs
+    obtain ⟨a, b, ha, hb, h0, hab⟩ := hs
+    obtain ⟨tags, htags, hlab⟩ := hl s.label
+    have hseg : segTimes s.onsetS s.offsetS (s.onsetSample.map ratOfInt) (s.offsetSample.map ratOfInt)
+        r.samplerate r.te adjust = some (a, b) := by
+      unfold endTime at ha hb
+      rw [hte]; simp [segTimes, ha, hb, adjTime]
+    refine ⟨⟨some (.timeInterval a b), tags⟩, ?_, ?_⟩
+    · rw [C10_import_segment_geometry]
+      exact ⟨a, b, hseg, h0, hab, rfl, htags⟩
+    · rw [C10_export_interval_identity eo cast r.samplerate _ a b s.label rfl hlab]
+      simp [rtImage, ha, hb]
+  have boxSteps : ∀ b, BoxInDomain r b → ∃ ann, importBBox io adjust r b = .ok ann ∧
+      exportBBox eo cast raiseTime r.samplerate ann = .ok b := by
+    intro b hb
+    obtain ⟨tags, htags, hlab⟩ := hl b.label
+    obtain ⟨h0, h1, h2, h3, h4, h5⟩ := hb
+    have hc : boxCoords b.onset b.offset b.lowFreq b.highFreq r.te adjust =
+        (b.onset, b.lowFreq, b.offset, b.highFreq) := by
+      rw [hte]; simp [boxCoords, adjTime, adjFreq]
+    have hmk : mkBox b.onset b.lowFreq b.offset b.highFreq =
+        .ok (.boundingBox b.onset b.lowFreq b.offset b.highFreq) := by
+      unfold mkBox
+      have c1 : ¬ (b.onset < 0 ∨ b.lowFreq < 0 ∨ b.lowFreq > MAXF ∨ b.offset < 0 ∨ b.highFreq < 0 ∨ b.highFreq > MAXF) := by
+        grind
+      have c2 : ¬ b.onset > b.offset := by grind
+      have c3 : ¬ b.lowFreq > b.highFreq := by grind
+      simp only [c1, c2, c3, if_false]
+    refine ⟨⟨some (.boundingBox b.onset b.lowFreq b.offset b.highFreq), tags⟩, ?_, ?_⟩
+    · simp only [importBBox, hc, hmk, htags, bind, Except.bind, pure, Except.pure]
+    · have hbd := bounds_boundingBox b.onset b.lowFreq b.offset b.highFreq (by grind) (by grind)
+      have hmin : min b.highFreq (r.samplerate / 2) = b.highFreq := by grind
+      have hv : ¬ (b.onset < 0 ∨ ¬ b.onset < b.offset ∨ b.offset < 0 ∨ b.lowFreq < 0 ∨ ¬ b.lowFreq < b.highFreq ∨
+          b.highFreq < 0) := by grind
+      simp only [exportBBox, geomToBounds, isBoxGeom, isTimeGeom, hbd, hlab, mkBBox, bind, Except.bind]
+      simp only [Bool.not_true, Bool.false_eq_true, false_and, if_false, hmin, hv]
+  refine ⟨?_, ?_, ?_, ?_⟩
+  · intro s hs
+    obtain ⟨ann, h1, h2⟩ := segSteps s hs
+    simp [roundtripSegment, h1, h2, bind, Except.bind]
+  · intro segs hs
+    obtain ⟨anns, h1, h2⟩ := mapM_collect_roundtrip (importSegment io adjust r)
+      (exportSegment eo cast r.samplerate) (rtImage r.samplerate) ignore segs (fun s h => segSteps s (hs s h))
+    have h1' : importSequence io adjust r segs = .ok anns := h1
+    constructor
+    · simp [roundtripSequence, exportSequence, h1', h2, bind, Except.bind]
+    · simp [roundtripAnnotation, importAnnotation, importSeqs, exportAnnotation, exportSequence, h1', h2, bind,
+        Except.bind, pure, Except.pure]
+  · intro b hb
+    obtain ⟨ann, h1, h2⟩ := boxSteps b hb
+    simp [roundtripBBox, h1, h2, bind, Except.bind]
+  · intro boxes hb
+    obtain ⟨anns, h1, h2⟩ := mapM_collect_roundtrip (importBBox io adjust r)
+      (exportBBox eo cast raiseTime r.samplerate) id ignore boxes (fun b h => boxSteps b (hb b h))
+    simp [roundtripAnnotation, importAnnotation, importSeqs, exportAnnotation, h1, h2, bind, Except.bind,
+      pure, Except.pure]
+
+-- non-vacuity: the `select_by_key` route through a whole segment
+example : roundtripSegment { key := some "species" } { selectByKey := some "species" } true true ⟨8, 1, "rec.wav"⟩
+    ⟨"Myotis", some (1/2), none, none, some 10⟩ = .ok ⟨"Myotis", some (1/2), some (5/4), some 4, some 10⟩ := by
+  decide +kernel
 
 end SE.Proofs.C10
